@@ -1,5 +1,6 @@
 import S3db.Props.C01
 import S3db.Lemmas.TableCells
+import S3db.Lemmas.ReachLemmas
 /-!
 # C01 (continued) — the hypotheses of `C01_converges` hold for everything SQL histories produce
 
@@ -50,12 +51,24 @@ inductive Reach (H : Hist K V) (S : List String) : Table K V → Prop where
 
 /-- every reachable table draws all of its cells from the history -/
 theorem reach_from (H : Hist K V) (S : List String) (t : Table K V) (h : Reach H S t) : From H S t := by
-  sorry
+  -- `From H S` is `TableFrom` for the predicates "is a cell of the history"
+  show TableFrom S (fun k s => s ∈ H.statuses k) (fun k c x => x ∈ H.assigns k c) t
+  induction h with
+  | empty => exact tableFrom_nil
+  | insert _ hc hs hv hok ih => exact tableFrom_insert ih hc hs hv hok
+  | update _ hc hv ih => exact tableFrom_update _ _ _ ih hc hv
+  | delete _ hs ih => exact tableFrom_delete _ _ ih hs
+  | merge _ _ iha ihg => exact tableFrom_merge iha ihg
 
 /-- any family of reachable versions of a history with distinct times is a `Family` -/
 theorem reach_family (H : Hist K V) (S : List String) (hf : H.Functional) (vs : Nat → Table K V)
     (hr : ∀ i, Reach H S (vs i)) : Family S vs := by
-  sorry
+  have hfrom := fun i => reach_from H S (vs i) (hr i)
+  refine ⟨fun i => (hfrom i).1, fun i k e he => ((hfrom i).2 k e he).1, ?_, ?_⟩
+  · intro k i j e e' he he'
+    exact hf.1 k _ _ ((hfrom i).2 k e he).2.1 ((hfrom j).2 k e' he').2.1
+  · intro k c i j e e' x y he he' hx hy
+    exact hf.2 k c x y (((hfrom i).2 k e he).2.2 c x hx) (((hfrom j).2 k e' he').2.2 c y hy)
 
 /-- **C01, outright**: for every history with distinct write times on conflicting rows, any two
     readers that merged the same set of versions built from it — whatever the order, grouping and
@@ -70,6 +83,8 @@ theorem C01_holds (H : Hist K V) (S : List String) (hf : H.Functional) (vs : Nat
     versions committed by other readers are versions like any other) -/
 theorem reach_evalTables (H : Hist K V) (S : List String) (vs : Nat → Table K V)
     (hr : ∀ i, Reach H S (vs i)) (p : Sel.Plan) : Reach H S (evalTables vs p) := by
-  sorry
+  induction p with
+  | leaf i => exact hr i
+  | node p q ihp ihq => exact Reach.merge ihp ihq
 
 end S3db.Props.C01
